@@ -99,8 +99,8 @@ register("C04", "proof",
          "Two layers of Lean theorems. (1) Allocator model PV.RegAlloc (replica of register_assignment.py): colors_proper — symbols whose line intervals overlap get different colours, for every interval list; "
          "scope_registers_ok — every register a scope assigns is one of r0-r15, is blocked by none of its callers and is counted in the reported set; out_of_registers_is_error. The model is tied to the code by "
          "reproducing the REAL virtual-to-physical map of every program of the run from the real intervals, scope order and call relation (captured harness-side). (2) Validator soundness "
-         "PV.AllocCheck.checkAlloc_sound: if the per-line check okProg accepts (code before allocation, renaming, liveness certificate) and control transfers stay on covered edges, the renamed program runs in lock "
-         "step with the original — same line, stack, effect trace, halting — for every environment and any number of steps, i.e. every register read returns the value last assigned to the same variable or "
+         "PV.AllocCheck.checkAlloc_sound: if the per-line check okProg accepts (code before allocation, renaming, liveness certificate) and control transfers stay on covered edges (checkAlloc_sound_static: decided by the executable edge check edgesOk over the static successors, complete for direct control flow by "
+         "Cfg.step_pc_mem_succs; jumps through registers must land on declared successors), the renamed program runs in lock step with the original — same line, stack, effect trace, halting — for every environment and any number of steps, i.e. every register read returns the value last assigned to the same variable or "
          "temporary. The validator is run on the real (code, map) of every shipped and generated program; its acceptance establishes the theorem's hypothesis for that artefact. Rejected artefacts (context-"
          "insensitive liveness) and all others are additionally executed side by side (virtual vs allocated code) as the failing-input search. Known findings F-C04-b/c/e printed from witnesses.",
          TB + "PV.IC10 machine is a trusted specification; indirect jumps (j ra, jr) must land on declared successors (dynamic side condition of the theorem, monitored in the side-by-side run); that line "
